@@ -40,3 +40,303 @@ def install(ex):
             return ex.ok(SBuiltin('frac.' + attr), st)
         return None
     ex.hooks['class_getattr'] = class_getattr
+
+
+# =============================================================================================
+# election model: candidates, ballots, rankings, ghost counters
+
+CAND = 'droop.candidate.Candidate'
+CANDS = 'droop.candidates.Candidates'
+ELEC = 'droop.election.Election'
+BALLOT = 'droop.election.Election.Ballot'
+
+inC = z3.Function('inC', I, B)              # candidate object of the election under count
+isBallot = z3.Function('isBallot', I, B)    # ballot object in E.ballots
+byCid = z3.Function('byCid', I, I)          # cid -> candidate object
+validcid = z3.Function('validcid', I, B)    # cid of a non-withdrawn candidate of this election
+seqlen = z3.Function('seqlen', I, I)
+seqelem = z3.Function('seqelem', I, I, I)
+ballots_elem = z3.Function('ballots_elem', I, I)
+ballots_pos = z3.Function('ballots_pos', I, I)
+cands_elem = z3.Function('cands_elem', I, I)
+cands_pos = z3.Function('cands_pos', I, I)
+msg_subject = z3.Function('msg_subject', I, I)
+N_BALLOT_OBJS = z3.Int('n_ballot_objects')
+
+GHOST_INT = ('nH', 'nE', 'nD', 'nW', 'nP', 'nlog')
+GHOST_STR = ('lasttag', 'lastmsg')
+
+
+def ghost_fresh(name):
+    if name in GHOST_STR:
+        return SStr(t=fresh_int('g_' + name))
+    return SInt(fresh_int('g_' + name))
+
+
+def ghost_get(st, name):
+    k = 'g:' + name
+    v = st.ghost.get(k)
+    if v is None:
+        v = SStr(t=z3.Int('g0_' + name)) if name in GHOST_STR else SInt(z3.Int('g0_' + name))
+        st.ghost[k] = v
+        if name in GHOST_INT:
+            st.assume(v.t >= 0)
+    return v
+
+
+def str_id(s):
+    return SStr(lit=s).t
+
+
+def election_facts(ex, st):
+    if st.ghost.get('election_facts'):
+        return
+    st.ghost['election_facts'] = True
+    C = ex.C
+    st.assume(N_BALLOT_OBJS >= 0)
+    a0 = st.ghost.get('alloc0', st.alloc)
+    st.facts.append((BALLOT, lambda t: z3.Implies(isBallot(t), z3.And(
+        t >= 1, t < a0, ballots_pos(t) >= 0, ballots_pos(t) < N_BALLOT_OBJS, ballots_elem(ballots_pos(t)) == t))))
+    st.facts.append((CAND, lambda t: z3.Implies(inC(t), z3.And(
+        t >= 1, t < a0, cands_pos(t) >= 0, cands_elem(cands_pos(t)) == t))))
+    for g in GHOST_INT:
+        ghost_get(st, g)
+    # A-profile (C15 post-parse invariant): every ranking entry is the id of a non-withdrawn candidate
+    sq, jq = z3.Int('sq!'), z3.Int('jq!')
+    st.assume(z3.ForAll([sq, jq], z3.Implies(z3.And(jq >= 0, jq < seqlen(sq)), validcid(seqelem(sq, jq))),
+                        patterns=[seqelem(sq, jq)]))
+    kq = z3.Int('kq!')
+    carr = C.heap_array(st, CAND, 'cid', 'int')
+    st.assume(z3.ForAll([kq], z3.Implies(validcid(kq), z3.And(inC(byCid(kq)), byCid(kq) >= 1, byCid(kq) < a0)),
+                        patterns=[byCid(kq)]))
+    # every candidate of the election has one of the four states; counters are non-negative
+    stt = C.heap_array(st, CAND, 'state', 'str')
+    st.facts.append((CAND, lambda t: z3.Implies(inC(t), z3.Or(*[z3.Select(C.heap_array(st, CAND, 'state', 'str'), t) == str_id(x)
+                                                                 for x in ('hopeful', 'elected', 'defeated', 'withdrawn')]))))
+
+
+def state_is(C, st, t, name):
+    return z3.Select(C.heap_array(st, CAND, 'state', 'str'), t) == str_id(name)
+
+
+def pending_true(C, st, t):
+    C.heap_array(st, CAND, 'pending', 'opt:bool')
+    return z3.And(z3.Not(z3.Select(st.heap[(CAND, 'pending?')], t)), z3.Select(st.heap[(CAND, 'pending')], t))
+
+
+def select_pred(C, st, what):
+    "membership predicate of C.select(what) on the current heap (snapshot)"
+    sarr = C.heap_array(st, CAND, 'state', 'str')
+    C.heap_array(st, CAND, 'pending', 'opt:bool')
+    pn, pv = st.heap[(CAND, 'pending?')], st.heap[(CAND, 'pending')]
+    is_ = lambda t, n: z3.Select(sarr, t) == str_id(n)      # noqa
+    pend = lambda t: z3.And(z3.Not(z3.Select(pn, t)), z3.Select(pv, t))     # noqa
+    if what == 'all':
+        return lambda t: inC(t)
+    if what == 'eligible':
+        return lambda t: z3.And(inC(t), z3.Not(is_(t, 'withdrawn')))
+    if what == 'pending':
+        return lambda t: z3.And(inC(t), is_(t, 'elected'), pend(t))
+    if what == 'notpending':
+        return lambda t: z3.And(inC(t), is_(t, 'elected'), z3.Not(pend(t)))
+    if what in ('hopeful', 'elected', 'defeated', 'withdrawn'):
+        return lambda t: z3.And(inC(t), is_(t, what))
+    raise Unsupported('select(%s)' % what)
+
+
+def select_len(st, what):
+    g = lambda n: ghost_get(st, n).t        # noqa
+    return {'all': lambda: g('nH') + g('nE') + g('nD') + g('nW'),
+            'eligible': lambda: g('nH') + g('nE') + g('nD'),
+            'pending': lambda: g('nP'), 'notpending': lambda: g('nE') - g('nP'),
+            'hopeful': lambda: g('nH'), 'elected': lambda: g('nE'), 'defeated': lambda: g('nD'),
+            'withdrawn': lambda: g('nW')}[what]()
+
+
+def sorted_facts(C, st, R, keyname, reverse):
+    "first / last element extremal for the key; adjacent order on demand (DESIGN: sorted is a stable permutation)"
+    if keyname == 'tie':
+        arr = C.heap_array(st, CAND, 'tieOrder', 'int')
+        key = lambda t: z3.Select(arr, t)       # noqa
+        keys = [key]
+    elif keyname == 'ballot':
+        arr = C.heap_array(st, CAND, 'order', 'int')
+        keys = [lambda t: z3.Select(arr, t)]
+    elif keyname == 'vote':
+        varr = C.heap_array(st, CAND, 'vote', 'val')
+        oarr = C.heap_array(st, CAND, 'order', 'int')
+        keys = [lambda t: z3.Select(varr, t), lambda t: z3.Select(oarr, t)]
+    else:
+        return
+    R.sort_keys = keys
+    R.sort_reverse = reverse
+
+    def le(a, b):       # key(a) <= key(b) lexicographically
+        if len(keys) == 1:
+            return keys[0](a) <= keys[0](b)
+        return z3.Or(keys[0](a) < keys[0](b), z3.And(keys[0](a) == keys[0](b), keys[1](a) <= keys[1](b)))
+    first, last = R.elem(z3.IntVal(0)), R.elem(R.length - 1)
+    lo, hi = (last, first) if reverse else (first, last)
+    st.facts.append((CAND, lambda t: z3.Implies(z3.And(R.mem(t), R.length >= 1), z3.And(le(lo, t), le(t, hi)))))
+    R.le = le
+
+
+def install_election(ex):
+    C = ex.C
+    repo = ex.repo
+
+    def mk_select(st, what, order, reverse):
+        election_facts(ex, st)
+        mem = select_pred(C, st, what)
+        n = select_len(st, what)
+        from .l2 import mk_abs
+        R = mk_abs(C, st, 'ref:' + CAND, mem, n, base='sel_' + what, distinct=True)
+        w = fresh_int('wit_' + what)
+        st.assume(z3.Implies(n >= 1, mem(w)))
+        st.note_ref(CAND, w)
+        # a member exists iff the counter is positive (card lemma)
+        st.facts.append((CAND, lambda t: z3.Implies(mem(t), n >= 1)))
+        if order in ('tie', 'ballot', 'vote'):
+            sorted_facts(C, st, R, order, reverse)
+        return R
+
+    SELECTS = {'eligible', 'withdrawn', 'hopeful', 'elected', 'defeated', 'notpending', 'pending'}
+
+    def lit(v, default=None):
+        if v is None:
+            return default
+        if isinstance(v, SStr) and v.lit is not None:
+            return v.lit
+        if isinstance(v, SBool):
+            t = z3.simplify(v.t)
+            if z3.is_true(t):
+                return True
+            if z3.is_false(t):
+                return False
+        raise Unsupported('non-literal argument to a Candidates selector')
+
+    def pre_call(info, env, st, fr, node):
+        q = info.qualname
+        if not q.startswith('droop.candidates.Candidates.'):
+            return None
+        if ex.cur_func is not None and ex.cur_func.qualname == q:
+            return None
+        name = q.rsplit('.', 1)[1]
+        if name == 'select':
+            R = mk_select(st, lit(env['state']), lit(env.get('order'), 'none'), lit(env.get('reverse'), False))
+            ex.col.assumed.add(q + ' (model)')
+            return ex.ok(R, st)
+        if name in SELECTS:
+            R = mk_select(st, name, lit(env.get('order'), 'none'), lit(env.get('reverse'), False))
+            ex.col.assumed.add(q + ' (model)')
+            return ex.ok(R, st)
+        if name in ('byTieOrder', 'byVote', 'byBallotOrder'):
+            from .l2 import iter_to_abs, mk_abs
+            L = iter_to_abs(C, env['candidates'], st, fr)
+            R = mk_abs(C, st, L.ek, L.mem, L.length, base=name, distinct=L.distinct)
+            R.facts = R.facts + L.facts
+            sorted_facts(C, st, R, {'byTieOrder': 'tie', 'byVote': 'vote', 'byBallotOrder': 'ballot'}[name],
+                         lit(env.get('reverse'), False))
+            ex.col.assumed.add(q + ' (model)')
+            return ex.ok(R, st)
+        if name == 'byCid':
+            election_facts(ex, st)
+            k = env['cid']
+            if isinstance(k, SOpt):
+                k = k.inner
+            caller = ex.cur_func.qualname if ex.cur_func else '?'
+            ex.col.add('PRE', ex.cur_props or [], caller, 'byCid:valid-cid',
+                       'Candidates.byCid is called with the id of a candidate of this election', C.assumptions(st),
+                       validcid(k.t))
+            st.assume(validcid(k.t))
+            r = byCid(k.t)
+            cid_facts(st, k.t)
+            st.note_ref(CAND, r)
+            return ex.ok(SRef(repo.resolve(CAND), r), st)
+        return None
+
+    def cid_facts(st, k):
+        carr = C.heap_array(st, CAND, 'cid', 'int')
+        st.assume(z3.Implies(validcid(k), z3.And(inC(byCid(k)), z3.Select(carr, byCid(k)) == k,
+                                                 z3.Not(state_is(C, st, byCid(k), 'withdrawn')))))
+    ex.cid_facts = cid_facts
+
+    def model_field(st, ref, field, kind):
+        election_facts(ex, st)
+        if kind == 'model:ballots':
+            L = SAbs('ref:' + BALLOT, lambda t: isBallot(t), N_BALLOT_OBJS, elem=lambda i: ballots_elem(i),
+                     pos=lambda t: ballots_pos(t), distinct=True, ordered=True, name='E.ballots')
+            L.facts = [lambda t: z3.Implies(isBallot(t), z3.And(ballots_pos(t) >= 0, ballots_pos(t) < N_BALLOT_OBJS,
+                                                                 ballots_elem(ballots_pos(t)) == t))]
+            return L
+        if kind == 'model:rule':
+            r = st.ghost.get('rule_ref')
+            if r is not None:
+                return r
+        return None
+
+    def iter_abs(it, st, fr):
+        if isinstance(it, SRef) and it.cname == CANDS:
+            return mk_select(st, 'all', 'none', False)
+        if isinstance(it, SRef) and it.cname.startswith('seq:'):
+            ek = it.cname[4:]
+            sid = it.t
+            st.assume(seqlen(sid) >= 0)
+            posf = z3.Function(fresh_name('seq_pos'), I, I)
+            L = SAbs(ek, lambda t: z3.Exists([z3.Int('j!')], z3.And(z3.Int('j!') >= 0, z3.Int('j!') < seqlen(sid),
+                                                                   seqelem(sid, z3.Int('j!')) == t)),
+                     seqlen(sid), elem=lambda i: seqelem(sid, i), pos=lambda t: posf(t), distinct=False, name='seq')
+            L.is_ranking = True
+            return L
+        return None
+
+    def before_write(st, ref, cname, field, v, kind):
+        "ghost counters follow every write of Candidate.state / .pending (card-update lemma)"
+        if cname != CAND or field not in ('state', 'pending'):
+            return
+        election_facts(ex, st)
+        t = ref.t
+        is_ = lambda n: state_is(C, st, t, n)      # noqa
+        old_p = pending_true(C, st, t)
+        old_e = is_('elected')
+        if field == 'state':
+            new = v.t
+            nw = lambda n: new == str_id(n)     # noqa
+            new_p_and_e = z3.And(nw('elected'), old_p)
+            for g, n in (('nH', 'hopeful'), ('nE', 'elected'), ('nD', 'defeated'), ('nW', 'withdrawn')):
+                cur = ghost_get(st, g).t
+                st.ghost['g:' + g] = SInt(z3.If(inC(t), cur + z3.If(nw(n), 1, 0) - z3.If(is_(n), 1, 0), cur))
+            cur = ghost_get(st, 'nP').t
+            st.ghost['g:nP'] = SInt(z3.If(inC(t), cur + z3.If(new_p_and_e, 1, 0) - z3.If(z3.And(old_e, old_p), 1, 0), cur))
+        else:
+            if isinstance(v, SNone):
+                newp = z3.BoolVal(False)
+            elif isinstance(v, SBool):
+                newp = v.t
+            elif isinstance(v, SOpt):
+                newp = z3.And(z3.Not(v.isnone), v.inner.t)
+            else:
+                raise Unsupported('pending := %r' % (v,))
+            cur = ghost_get(st, 'nP').t
+            st.ghost['g:nP'] = SInt(z3.If(inC(t), cur + z3.If(z3.And(old_e, newp), 1, 0) - z3.If(z3.And(old_e, old_p), 1, 0), cur))
+
+    def pseudo_len(v, st, fr):
+        if v.cname.startswith('seq:'):
+            st.assume(seqlen(v.t) >= 0)
+            return ex.ok(SInt(seqlen(v.t)), st)
+        return None
+
+    ex.hooks['pre_call'] = pre_call
+    ex.hooks['model_field'] = model_field
+    ex.hooks['iter_abs'] = iter_abs
+    ex.hooks['before_write'] = before_write
+    ex.hooks['len'] = pseudo_len
+    ex.election_facts = lambda st: election_facts(ex, st)
+
+
+_install0 = install
+
+
+def install(ex):       # noqa
+    _install0(ex)
+    install_election(ex)
